@@ -15,6 +15,7 @@ pub struct Entry {
     pub(crate) accepted_label: &'static str,
     pub(crate) rejected_label: &'static str,
     pub(crate) case: fn(&mut Gen, &Entry) -> Outcome,
+    pub(crate) acceptance: fn(&mut Gen, &Entry) -> Outcome,
 }
 
 type SchemaFixture = Arc<(LocalTypeId, VersionedScryptoSchema)>;
@@ -189,6 +190,73 @@ where
     }
 }
 
+/// Acceptance probe: `PROBES` payloads built from the type's own schema; the typed decoder must
+/// accept at least one (a decoder that rejects everything its schema describes means that schema
+/// and codec describe different shapes, which the per-payload oracle cannot see because it only
+/// obtains values through the decoder).
+const PROBES: usize = 48;
+
+fn acceptance_case<T, C>(g: &mut Gen, entry: &Entry, decode: fn(&[u8]) -> Result<T, DecodeError>) -> Outcome
+where
+    T: ScryptoDescribe + PartialEq + Debug + 'static,
+    C: Codec,
+{
+    let name = entry.name;
+    let fixture = schema_of::<T>();
+    let mut accepted = 0usize;
+    let mut built = 0usize;
+    let mut errors: Vec<String> = Vec::new();
+    let mut first: Option<String> = None;
+    for _ in 0..PROBES {
+        let mut tg = TypedGen::new(g, fixture.1.v1(), C::FL);
+        tg.max_len = 2;
+        tg.budget = 80;
+        tg.alt_kind_chance = (0, 1);
+        let Some(tree) = tg.payload(fixture.0, C::DEPTH) else { continue };
+        built += 1;
+        let payload = print_payload(C::FL, &tree);
+        if first.is_none() {
+            first = Some(format!("{} = {}", hexs(&payload[..payload.len().min(120)]), tree.render()));
+        }
+        let b = payload.clone();
+        match catch(move || decode(&b)) {
+            Ok(Ok(_)) => accepted += 1,
+            Ok(Err(e)) => {
+                let e = format!("{:?}", e);
+                if !errors.contains(&e) && errors.len() < 6 {
+                    errors.push(e);
+                }
+            }
+            Err(p) => return Outcome::fail(format!("typed decode panics at {}", panic_site(&p)), format!("type {} payload {}: {}", name, hexs(&payload), p)),
+        }
+    }
+    g.sample(|| format!("{} ({}): {} of {} schema-built payloads accepted; first: {}", name, C::FL.name(), accepted, built, first.clone().unwrap_or_default()));
+    if built == 0 {
+        return Outcome::Discard;
+    }
+    g.count("acceptance probes", built as u64);
+    g.count("acceptance probes accepted", accepted as u64);
+    if accepted * 2 < built {
+        g.label("under half of the schema-built payloads accepted");
+    }
+    g.set_nontrivial(accepted > 0);
+    if accepted == 0 && built >= PROBES / 2 {
+        return Outcome::fail(
+            "typed decoder rejects every payload built from the type's own schema",
+            format!("type {} ({}): 0 of {} payloads conforming to the generated schema decode; errors {:?}; first payload {}", name, C::FL.name(), built, errors, first.unwrap_or_default()),
+        );
+    }
+    Outcome::Pass
+}
+
+pub(crate) fn scrypto_acceptance<T: ScryptoEncode + ScryptoDecode + ScryptoDescribe + PartialEq + Debug + 'static>(g: &mut Gen, e: &Entry) -> Outcome {
+    acceptance_case::<T, ScryptoCodec>(g, e, |b| scrypto_decode::<T>(b))
+}
+
+pub(crate) fn manifest_acceptance<T: ManifestEncode + ManifestDecode + ScryptoDescribe + PartialEq + Debug + 'static>(g: &mut Gen, e: &Entry) -> Outcome {
+    acceptance_case::<T, ManifestCodec>(g, e, |b| manifest_decode::<T>(b))
+}
+
 pub(crate) fn scrypto_case<T: ScryptoEncode + ScryptoDecode + ScryptoDescribe + PartialEq + Debug + 'static>(g: &mut Gen, e: &Entry) -> Outcome {
     typed_case::<T, ScryptoCodec>(g, e, |b| scrypto_decode::<T>(b), |v| scrypto_encode(v))
 }
@@ -209,6 +277,7 @@ macro_rules! reg {
             accepted_label: $crate::c22::leak(format!("accepted: {}", stringify!($t))),
             rejected_label: $crate::c22::leak(format!("rejected: {}", stringify!($t))),
             case: $crate::c22::scrypto_case::<$t>,
+            acceptance: $crate::c22::scrypto_acceptance::<$t>,
         });
     };
     ($v:ident, manifest, $t:ty) => {
@@ -218,6 +287,7 @@ macro_rules! reg {
             accepted_label: $crate::c22::leak(format!("accepted: {} (manifest)", stringify!($t))),
             rejected_label: $crate::c22::leak(format!("rejected: {} (manifest)", stringify!($t))),
             case: $crate::c22::manifest_case::<$t>,
+            acceptance: $crate::c22::manifest_acceptance::<$t>,
         });
     };
 }
@@ -238,14 +308,21 @@ pub fn case(g: &mut Gen) -> Outcome {
     (e.case)(g, e)
 }
 
+pub fn acceptance(g: &mut Gen) -> Outcome {
+    let r = registry();
+    let e = &r[g.index(r.len())];
+    (e.acceptance)(g, e)
+}
+
 pub fn check() -> Check {
     Check::new(
         "C22",
         "Typed SBOR codecs agree with their generated schemas",
-        "For a registry of SBOR-derived types (transaction models V1/V2, manifest values and resource constraints, substate payloads of every native blueprint and object module, native events, receipt and state-update types, Merkle tree nodes, schema types) a payload is generated from the type's own generated schema (schema-directed: every variant, boundary numerics and lengths, node ids of the required entity class; one quarter carry one planted defect: wrong kind, extra / missing field, unknown variant, out-of-range numeric, length off by one, wrong entity class). Oracle: a payload built to conform validates; every payload the typed decoder accepts validates against the schema; for every decoded value v: encode(v) validates and decode(encode(v)) == v. A typed decoder rejecting a schema-valid payload is allowed (content checks) and counted per type. Non-trivial = accepted value with >= 2 levels of nesting and an enum variant != 0 or a non-empty collection.",
+        "For a registry of SBOR-derived types (transaction models V1/V2, manifest values and resource constraints, substate payloads of every native blueprint and object module, native events, receipt and state-update types, Merkle tree nodes, schema types) a payload is generated from the type's own generated schema (schema-directed: every variant, boundary numerics and lengths, node ids of the required entity class; one quarter carry one planted defect: wrong kind, extra / missing field, unknown variant, out-of-range numeric, length off by one, wrong entity class). Oracle: a payload built to conform validates; every payload the typed decoder accepts validates against the schema; for every decoded value v: encode(v) validates and decode(encode(v)) == v. A typed decoder rejecting a schema-valid payload is allowed (content checks) and counted per type; part acceptance builds 48 conforming payloads for one type and requires the typed decoder to accept at least one (schema and codec describing different shapes would otherwise go unseen, since values are only obtained through the decoder). Non-trivial = accepted value with >= 2 levels of nesting and an enum variant != 0 or a non-empty collection.",
     )
     .assume("values are obtained by decoding schema-directed payloads (no hand-written constructors); types whose decoder accepts few generated payloads are under-explored, see the per-type accepted/rejected classes")
     .assume("typed decoders may be stricter than schema validation (the converse of the second clause is not asserted)")
-    .part(Part::new("types", 150_000, 8_000_000, 3072, case))
+    .part(Part::new("types", 1_500_000, 60_000_000, 3072, case))
+    .part(Part::new("acceptance", 20_000, 600_000, 16384, acceptance))
     .min_nontrivial_pct(10.0)
 }
